@@ -11,6 +11,7 @@ structure WSt where
   failK : Nat := 0
   crashK : Nat := 0
   snap : Option (List TopicRow) := none
+  stalled : List Sid := []      -- connections which have stopped reading: whatever a topic sends them is refused
 
 def kv (ws : List String) : List (String × String) :=
   ws.filterMap (fun w => match w.splitOn "=" with
@@ -198,6 +199,7 @@ def step (st : WSt) (ws : List String) : Option (WSt × String) :=
   | "sess" :: s :: u :: lvl :: rest =>
     let sess : Sess := { sid := s, uid := u, lvl := levelOfStr lvl, bg := rest.contains "bg" }
     some ({ st with w := { st.w with sess := st.w.sess ++ [sess] } }, "ok")
+  | ["stall", s] => if (st.w.sess? s).isSome then some ({ st with stalled := s :: st.stalled }, "ok") else none
   | ["fail", k] => (decNat k).map (fun k => ({ st with failK := k }, "ok"))
   | ["crash", k] => (decNat k).map (fun k => ({ st with crashK := k }, "ok"))
   | "restart" :: _ =>
@@ -413,14 +415,27 @@ def step (st : WSt) (ws : List String) : Option (WSt × String) :=
       match c with
       | none => none
       | some c =>
+        -- a topic which cannot hand a message of its fan-out to a session - the connection has stalled - detaches that session when the
+        -- fan-out is over (broadcastToSessions, topic.go:1432-1442: unregisterSession with init = false); what was meant for it is lost
+        let c : Ctx := if op = "pub" then
+            st.stalled.foldl (fun c sd =>
+              if c.frames.any (fun x => x.1 = sd ∧ x.2.startsWith "data ") then
+                match c.w.sess? sd, rest with
+                | some s1, tn :: _ => c.dropTopic s1 tn
+                | _, _ => c
+              else c) c
+          else c
+        let c := { c with frames := c.frames.filter (fun x => !st.stalled.contains x.1) }
         let c := c.deliverAll
+        let c := { c with frames := c.frames.filter (fun x => !st.stalled.contains x.1) }
         -- the order in which the topics learn about a dropped connection is not defined: frames are compared sorted
         let c := if op = "drop" ∨ op = "fg" ∨ op = "deluser" then { c with frames := c.frames.mergeSort (fun a b => s!"{a.1}<-{a.2}" ≤ s!"{b.1}<-{b.2}") } else c
         let stOut := { st with w := c.w }
         let asUid : Uid := match parseAs m with | some (u, _) => u | none => ""
         let line := render st.w stOut c { actor := sid, viaChn := viaChn, op := op, what := (rest.getD 1 ""), asUid := asUid }
         -- the crash snapshot, if one was taken during this op, is what an immediately following `restart` restores
-        some (if ev then { st with w := c.w, snap := none } else { w := c.w, failK := 0, crashK := 0, snap := c.snap }, line)
+        some (if ev then { st with w := c.w, snap := none, stalled := if op = "drop" then st.stalled.filter (· ≠ sid) else st.stalled }
+              else { st with w := c.w, failK := 0, crashK := 0, snap := c.snap }, line)
   | _ => none
 
 end Tinode.Driver.World
